@@ -1,13 +1,16 @@
 """C17 — maps behave like a dictionary; notifiers fire once (DESIGN.md section 3, C17).
 
-One differential stream per implementation (tools/mapcheck.py); an implementation is switched on
-by adding it to STREAMS once its Lean model is registered in lean/QbVerif/Driver/Map.lean (`impls`)
+One differential stream per implementation (tools/mapcheck.py); an implementation is moved from
+ORACLE_STREAMS (real code checked by the python dictionary oracle only) to STREAMS (exact comparison
+with its Lean model as well) once its Lean model is registered in lean/QbVerif/Driver/Map.lean (`impls`)
 and its theorems in lean/theorems.d/C17.json."""
 import mapcheck
 import mapgen
 
 # implementations whose model has landed: "ht", "sl", "trie"
 STREAMS = ["ht"]
+# implementations without a Lean model: real code against the python dictionary oracle only
+ORACLE_STREAMS = ["sl", "trie"]
 
 
 def run(ctx):
@@ -18,4 +21,5 @@ def run(ctx):
                 "extensions, siblings); hashtable sizes 0..1000 (8..1024 buckets, collisions); a case is non-trivial if it "
                 "reaches at least one tagged situation (replace, rm-absent-sharing, abandoned traversal, notifier "
                 "add/del errors, FREE events, destroy, ...); distinct by SHA1 of the op lines")
-    mapcheck.run(ctx, "C17", STREAMS, mapgen.gen_c17, mapgen.oracle_c17, 1500, 30000)
+    mapcheck.run(ctx, "C17", STREAMS, mapgen.gen_c17, mapgen.oracle_c17, 1500, 30000,
+                 oracle_streams=ORACLE_STREAMS, noracle=(700, 10000))
